@@ -8,6 +8,30 @@ import json
 import os
 
 
+_NORM_RE = None
+_NORM_SEGS = [
+    ('std::ops::arith::', 'std::ops::'), ('std::ops::try_trait::', 'std::ops::'), ('std::ops::deref::', 'std::ops::'),
+    ('std::ops::function::', 'std::ops::'), ('std::ops::drop::', 'std::ops::'), ('std::ops::control_flow::', 'std::ops::'),
+    ('std::ops::bit::', 'std::ops::'), ('std::iter::traits::iterator::', 'std::iter::'),
+    ('std::iter::traits::collect::', 'std::iter::'), ('libc::unix::timespec', 'libc::timespec'),
+    ('std::sync::mpmc::', 'std::sync::mpsc::'),
+]
+
+
+def norm(text):
+    """canonical spelling of definition paths: the std facade (core/alloc -> std), private
+    std module segments and libc re-exports, so that summaries and cross-crate lookups use
+    one name per item"""
+    import re
+    global _NORM_RE
+    if _NORM_RE is None:
+        _NORM_RE = re.compile(r'\b(core|alloc)::')
+    text = _NORM_RE.sub('std::', text)
+    for a, b in _NORM_SEGS:
+        text = text.replace(a, b)
+    return text
+
+
 class Crate:
     def __init__(self, doc, path):
         self.doc = doc
@@ -156,23 +180,13 @@ class Body:
         return b in d and a in d[b]
 
     def postdominators(self):
-        """pdom[b] = set of blocks post-dominating b w.r.t. normal exits (return blocks;
-        diverging blocks -- panics, unreachable -- are ignored as exits)"""
+        """pdom[b] = set of blocks post-dominating b w.r.t. a virtual exit joined by every
+        return block and every diverging block (panic call, unreachable, resume)"""
         if self._pdom is not None:
             return self._pdom
         reach = self.reachable(0)
-        exits = [b for b in self.return_blocks() if b in reach]
-        # blocks that can reach a return
-        preds = self.preds()
-        can = set()
-        st = list(exits)
-        while st:
-            b = st.pop()
-            if b in can:
-                continue
-            can.add(b)
-            st.extend(p for p in preds[b] if p in reach)
-        order = sorted(can)
+        exits = [b for b in reach if not self.succs(b)]
+        order = sorted(reach)
         pdom = {b: set(order) for b in order}
         for e in exits:
             pdom[e] = {e}
@@ -182,7 +196,7 @@ class Body:
             for b in order:
                 if b in exits:
                     continue
-                ss = [s for s in self.succs(b) if s in can]
+                ss = [s for s in self.succs(b) if s in reach]
                 if not ss:
                     continue
                 new = set.intersection(*[pdom[s] for s in ss]) | {b}
@@ -411,7 +425,7 @@ class Facts:
             if os.path.basename(f).startswith('_'):
                 continue
             with open(f) as fh:
-                self.crates.append(Crate(json.load(fh), f))
+                self.crates.append(Crate(json.loads(norm(fh.read())), f))
         self.by_path = {}
         for c in self.crates:
             for b in c.bodies:
